@@ -4,7 +4,7 @@ import sys
 from . import common as C
 
 TARGETS = {
-    "asan": ["drv_sorted", "drv_pipeline"],
+    "asan": ["drv_sorted", "drv_pipeline", "drv_threads", "drv_lifecycle"],
     "plain": ["drv_rotation"],
 }
 
